@@ -374,6 +374,9 @@ class ConfigManager:
                     "INSERT OR REPLACE INTO settings (key, value) VALUES ('current_environment_api_url', ?)",
                     (DEFAULT_ENVIRONMENT.api_url,),
                 )
+                # The current profile is stored by name only: clear it, or a
+                # same-named profile of the default environment becomes active.
+                conn.execute("DELETE FROM settings WHERE key = 'current_profile'")
 
             conn.commit()
             return True
